@@ -252,7 +252,7 @@ pub fn check(ctx: &Ctx) {
         common::cert(*k, 1);
         common::cert(*k, 2);
     }
-    let docs: Vec<Vec<u8>> = vec![
+    let mut docs: Vec<Vec<u8>> = vec![
         vec![],
         b"a".to_vec(),
         b"line one\nline two\r\nthree\r".to_vec(),
@@ -263,6 +263,16 @@ pub fn check(ctx: &Ctx) {
         [&vec![b't'; 1022][..], b"\r\n"].concat(),
         [&vec![b't'; 511][..], b"\n"].concat(),
     ];
+    if !quick {
+        // a line ending of each kind on every alignment around the 512 / 1024 windows
+        for window in [512usize, 1024] {
+            for off in window - 4..=window + 2 {
+                for tail in [&b"\r"[..], b"\n", b"\r\n", b"\r\r\n"] {
+                    docs.push([&vec![b't'; off][..], tail, b"x"].concat());
+                }
+            }
+        }
+    }
     let ids: Vec<Vec<u8>> = {
         let mut v = vec![
             vec![],
@@ -289,7 +299,8 @@ pub fn check(ctx: &Ctx) {
                     SigKind::DocBinary | SigKind::DocText | SigKind::CertUserId(0x13) | SigKind::CertUserAttr | SigKind::ThirdPartyCert
                 );
                 for (oi, object) in objects.iter().enumerate() {
-                    if only_first && oi != 2 {
+                    // thorough: the full product of kinds x objects
+                    if only_first && oi != 2 && quick {
                         continue;
                     }
                     if *key == KeyKind::Rsa2048V4 && oi > 2 && quick {
@@ -297,7 +308,7 @@ pub fn check(ctx: &Ctx) {
                     }
                     // hashed area shapes: default, then sizes that put the area length on the
                     // 1/2-octet subpacket length and 16-bit area boundaries
-                    let notations: Vec<usize> = if hash == hashes[0] && oi <= 2 {
+                    let notations: Vec<usize> = if (hash == hashes[0] && oi <= 2) || (!quick && *key != KeyKind::Rsa2048V4 && oi <= 4) {
                         if quick {
                             vec![0, 100, 150, 60_000]
                         } else {
